@@ -222,9 +222,33 @@ def post_conic_intersect(ctx, call):
     ctx.judge("conic_conic", ok, [A, B], what=f"Conic.intersect(Conic): {why}", op="Conic.intersect(Conic)", feat={**feat, "clustered": bool(sep <= 1e-3)}, nontrivial=True, observed=got)
 
 
+def post_from_pair(ctx, call):
+    """Conic.from_lines / Quadric.from_planes: whatever representative (scale) the constructor stores, the object it returns is
+    a line / plane pair and must say so: is_degenerate is True at every position and components returns two objects."""
+    if call.exc is not None:
+        return
+    q = call.result
+    args = [a for a in call.args[1:] if S._is_tensor(a)]
+    if len(args) != 2 or not all(R.finite(a.array) for a in args):
+        return
+    # judged for hyperplanes given with moderate coordinates (the constructor normalises the matrix itself)
+    if any(float(np.abs(a.array).max()) > 1e3 or float(np.abs(a.array).max()) < 1e-3 for a in args):
+        ctx.skip("is_degenerate", "constructor arguments of extreme scale")
+        return
+    try:
+        got = np.asarray(q.is_degenerate)
+    except Exception as e:  # noqa: BLE001
+        ctx.judge("is_degenerate", False, args, what=f"is_degenerate raised {type(e).__name__} on the result of {call.name}", op=call.name, nontrivial=True)
+        return
+    ctx.judge("is_degenerate", bool(np.all(got)), args, what=f"{call.name}(g, h).is_degenerate = {got!r} for a pair of hyperplanes", op=call.name + ".is_degenerate", nontrivial=True,
+              feat={"op": call.name})
+
+
 def install(ctx):
     import geometer.curve as C
 
+    core.wrap_method(C.Conic, "from_lines", post_from_pair)
+    core.wrap_method(C.QuadricTensor, "from_planes", post_from_pair)
     core.wrap_method(C.QuadricTensor, "is_degenerate", post_is_degenerate)
     core.wrap_method(C.QuadricTensor, "components", post_components)
     core.wrap_method(C.Conic, "intersect", post_conic_intersect)
